@@ -307,4 +307,125 @@ theorem genR_eq_wt (P : Params) :
         · simp [h2, genRAny]
       · simp [h1, genRAny]
 
+
+/-! ### reachability and productivity certificates -/
+
+/-- reachable from the start symbol through rules of the table -/
+inductive Reach (G : CFG) : CNT → Prop
+  | start : Reach G G.start
+  | step {nt : CNT} {rs : AList Sym (List (Ty × CFGState) × Unit)} {r : Sym × (List (Ty × CFGState) × Unit)}
+      {a : Ty × CFGState} :
+      Reach G nt → AList.lookup nt G.rules = some rs → r ∈ rs → a ∈ r.2.1 → Reach G (toNT a)
+
+def rk (r : AList CNT Nat) (n : CNT) : Nat := (AList.lookup n r).getD 0
+
+theorem rankLt_lt {r : AList CNT Nat} {a b : CNT} (h : rankLt r a b = true) : rk r a < rk r b := by
+  unfold rankLt at h
+  unfold rk
+  cases ha : AList.lookup a r <;> cases hb : AList.lookup b r <;> simp [ha, hb] at h ⊢
+  exact h
+
+theorem reach_of_cert (G : CFG) (rankR : AList CNT Nat) (hnd : (AList.keys G.rules).Nodup)
+    (h : okReach G rankR = true) :
+    ∀ (n : Nat) (e : CNT × AList Sym (List (Ty × CFGState) × Unit)), e ∈ G.rules → rk rankR e.1 ≤ n →
+      Reach G e.1 := by
+  unfold okReach at h
+  rw [List.all_eq_true] at h
+  intro n
+  induction n with
+  | zero =>
+    intro e he hr
+    have := h e he
+    rcases Bool.or_eq_true_iff.mp this with hs | hs
+    · have : e.1 = G.start := by simpa using hs
+      rw [this]; exact Reach.start
+    · rw [List.any_eq_true] at hs
+      obtain ⟨e', _, hx⟩ := hs
+      simp only [Bool.and_eq_true] at hx
+      have := rankLt_lt hx.2
+      omega
+  | succ n ih =>
+    intro e he hr
+    have := h e he
+    rcases Bool.or_eq_true_iff.mp this with hs | hs
+    · have : e.1 = G.start := by simpa using hs
+      rw [this]; exact Reach.start
+    · rw [List.any_eq_true] at hs
+      obtain ⟨e', he', hx⟩ := hs
+      simp only [Bool.and_eq_true] at hx
+      obtain ⟨hany, hlt⟩ := hx
+      have hlt' := rankLt_lt hlt
+      have hre := ih e' he' (by omega)
+      rw [List.any_eq_true] at hany
+      obtain ⟨r, hr', hany2⟩ := hany
+      rw [List.any_eq_true] at hany2
+      obtain ⟨a, ha, hae⟩ := hany2
+      have hae' : toNT a = e.1 := by simpa using hae
+      have hlk : AList.lookup e'.1 G.rules = some e'.2 :=
+        AList.lookup_of_mem_nodup hnd (by cases e'; exact he')
+      rw [← hae']
+      exact Reach.step hre hlk hr' ha
+
+theorem prod_of_cert (G : CFG) (rankP : AList CNT Nat) (hnd : (AList.keys G.rules).Nodup)
+    (h : okProd G rankP = true) :
+    ∀ (n : Nat) (e : CNT × AList Sym (List (Ty × CFGState) × Unit)), e ∈ G.rules → rk rankP e.1 ≤ n →
+      ∃ t, gen G t e.1 = true := by
+  unfold okProd at h
+  rw [List.all_eq_true] at h
+  intro n
+  induction n with
+  | zero =>
+    intro e he hr
+    have := h e he
+    rw [List.any_eq_true] at this
+    obtain ⟨r, _, hx⟩ := this
+    simp only [Bool.and_eq_true, beq_iff_eq] at hx
+    obtain ⟨hlk, hall⟩ := hx
+    rw [List.all_eq_true] at hall
+    -- with rank 0 the rule has no argument
+    have hnil : r.2.1 = [] := by
+      cases hargs : r.2.1 with
+      | nil => rfl
+      | cons a as =>
+        have := hall a (by simp [hargs])
+        simp only [Bool.and_eq_true] at this
+        have := rankLt_lt this.2
+        omega
+    refine ⟨.node r.1 [], ?_⟩
+    have hlk' : AList.lookup e.1 G.rules = some e.2 :=
+      AList.lookup_of_mem_nodup hnd (by cases e; exact he)
+    rw [gen]
+    simp [TT.rule?, hlk', hlk, hnil, genList]
+  | succ n ih =>
+    intro e he hr
+    have := h e he
+    rw [List.any_eq_true] at this
+    obtain ⟨r, _, hx⟩ := this
+    simp only [Bool.and_eq_true, beq_iff_eq] at hx
+    obtain ⟨hlk, hall⟩ := hx
+    rw [List.all_eq_true] at hall
+    have hlk' : AList.lookup e.1 G.rules = some e.2 :=
+      AList.lookup_of_mem_nodup hnd (by cases e; exact he)
+    -- a term for every argument
+    have hkids : ∀ (as : List (Ty × CFGState)), (∀ a ∈ as, a ∈ r.2.1) → ∃ ks, genList G ks as = true := by
+      intro as
+      induction as with
+      | nil => intro _; exact ⟨[], by simp [genList]⟩
+      | cons a as iha =>
+        intro hsub
+        have ha := hall a (hsub a (by simp))
+        simp only [Bool.and_eq_true] at ha
+        obtain ⟨hkey, hlt⟩ := ha
+        have hlt' := rankLt_lt hlt
+        obtain ⟨rs', hrs'⟩ := AList.contains_iff_lookup.mp hkey
+        have hmem := AList.lookup_some_mem hrs'
+        obtain ⟨t, ht⟩ := ih (toNT a, rs') hmem (by simp only; omega)
+        obtain ⟨ks, hks⟩ := iha (fun a' ha' => hsub a' (List.mem_cons_of_mem _ ha'))
+        obtain ⟨a1, a2⟩ := a
+        exact ⟨t :: ks, by simp only [genList, toNT] at ht ⊢; simp [ht, hks]⟩
+    obtain ⟨ks, hks⟩ := hkids r.2.1 (fun a ha => ha)
+    refine ⟨.node r.1 ks, ?_⟩
+    rw [gen]
+    simp [TT.rule?, hlk', hlk, hks]
+
 end PS.G
